@@ -1,11 +1,884 @@
-// Package c08 - correspondence harness for C08 (stub: not built yet).
+// Package c08 drives the real trust policy statement selection - OCIDocument /
+// BlobDocument selections directly and end-to-end through verifier.Verify, SkipVerify and
+// VerifyBlob - over valid documents (checked with the real Validate), all permutations of
+// their statements and a battery of listed / unlisted / near-miss / malformed queries; after
+// every selection everything reachable from the handed-out statement is mutated by
+// reflection and the selection is repeated.
 package c08
 
 import (
+	"context"
+	"crypto/x509"
+	"encoding/json"
 	"errors"
+	"fmt"
+	"reflect"
+	"runtime"
+	"sort"
+	"strings"
+	"sync"
+	"sync/atomic"
 
+	"github.com/notaryproject/notation-go"
+	"github.com/notaryproject/notation-go/verifier"
+	"github.com/notaryproject/notation-go/verifier/trustpolicy"
+	"github.com/notaryproject/notation-go/verifier/truststore"
 	"github.com/notaryproject/notation-go/xverif/common"
+	"github.com/opencontainers/go-digest"
+	ocispec "github.com/opencontainers/image-spec/specs-go/v1"
 )
 
-// Run generates the cases of C08.
-func Run(c *common.Ctx) error { return errors.New("C08: harness not built yet") }
+// ---- abstract case (JSON shape of Lean's Input / Obs) ---------------------------------
+
+type Stmt struct {
+	Name       string       `json:"name"`
+	Scopes     []string     `json:"scopes"`
+	IsGlobal   bool         `json:"isGlobal"`
+	Level      string       `json:"level"`
+	Override   *[][2]string `json:"override"`
+	Stores     []string     `json:"stores"`
+	Identities []string     `json:"identities"`
+	// not part of the abstract case, but compared by the harness
+	verifyTimestamp string
+}
+
+type Input struct {
+	Kind    string   `json:"kind"`
+	Stmts   []Stmt   `json:"stmts"`
+	Queries []string `json:"queries"`
+}
+
+type QObs struct {
+	Selected    *string `json:"selected"`
+	RefRejected bool    `json:"refRejected"`
+	ViaVerify   string  `json:"viaVerify"`
+	ViaSkip     string  `json:"viaSkip"`
+	CopyEqual   bool    `json:"copyEqual"`
+	Intact      bool    `json:"intact"`
+}
+
+type Obs struct {
+	Queries   []QObs `json:"queries"`
+	GlobalSel *QObs  `json:"globalSel"`
+}
+
+const (
+	noPolicy = "no-applicable-policy"
+	other    = "other"
+	mutated  = "x-mutated"
+)
+
+// ---- concretisation ---------------------------------------------------------------------
+
+func overrideMap(o *[][2]string) map[trustpolicy.ValidationType]trustpolicy.ValidationAction {
+	if o == nil {
+		return nil
+	}
+	m := map[trustpolicy.ValidationType]trustpolicy.ValidationAction{}
+	for _, kv := range *o {
+		m[trustpolicy.ValidationType(kv[0])] = trustpolicy.ValidationAction(kv[1])
+	}
+	return m
+}
+
+func sigVerification(s Stmt) trustpolicy.SignatureVerification {
+	return trustpolicy.SignatureVerification{VerificationLevel: s.Level, Override: overrideMap(s.Override),
+		VerifyTimestamp: trustpolicy.TimestampOption(s.verifyTimestamp)}
+}
+
+// docJSON renders the abstract document as the JSON text of a trust policy file.
+func docJSON(kind string, stmts []Stmt) []byte {
+	var doc any
+	if kind == "oci" {
+		d := trustpolicy.OCIDocument{Version: "1.0"}
+		for _, s := range stmts {
+			d.TrustPolicies = append(d.TrustPolicies, trustpolicy.OCITrustPolicy{Name: s.Name, SignatureVerification: sigVerification(s),
+				TrustStores: s.Stores, TrustedIdentities: s.Identities, RegistryScopes: s.Scopes})
+		}
+		doc = d
+	} else {
+		d := trustpolicy.BlobDocument{Version: "1.0"}
+		for _, s := range stmts {
+			d.TrustPolicies = append(d.TrustPolicies, trustpolicy.BlobTrustPolicy{Name: s.Name, SignatureVerification: sigVerification(s),
+				TrustStores: s.Stores, TrustedIdentities: s.Identities, GlobalPolicy: s.IsGlobal})
+		}
+		doc = d
+	}
+	b, err := json.Marshal(doc)
+	if err != nil {
+		panic(err)
+	}
+	return b
+}
+
+func parseOCI(b []byte) *trustpolicy.OCIDocument {
+	var d trustpolicy.OCIDocument
+	if err := json.Unmarshal(b, &d); err != nil {
+		panic(err)
+	}
+	return &d
+}
+
+func parseBlob(b []byte) *trustpolicy.BlobDocument {
+	var d trustpolicy.BlobDocument
+	if err := json.Unmarshal(b, &d); err != nil {
+		panic(err)
+	}
+	return &d
+}
+
+// ---- canonical view of a statement (whatever its concrete type) ----------------------------
+
+func strs(v []string) []string {
+	out := make([]string, len(v))
+	copy(out, v)
+	return out
+}
+
+func canonSV(sv trustpolicy.SignatureVerification) (string, *[][2]string, string) {
+	var ov *[][2]string
+	if sv.Override != nil {
+		l := [][2]string{}
+		for k, v := range sv.Override {
+			l = append(l, [2]string{string(k), string(v)})
+		}
+		sort.Slice(l, func(i, j int) bool { return l[i][0] < l[j][0] })
+		ov = &l
+	}
+	return sv.VerificationLevel, ov, string(sv.VerifyTimestamp)
+}
+
+func canonOCI(p *trustpolicy.OCITrustPolicy) Stmt {
+	lv, ov, ts := canonSV(p.SignatureVerification)
+	return Stmt{Name: p.Name, Scopes: strs(p.RegistryScopes), Level: lv, Override: ov, Stores: strs(p.TrustStores),
+		Identities: strs(p.TrustedIdentities), verifyTimestamp: ts}
+}
+
+func canonBlob(p *trustpolicy.BlobTrustPolicy) Stmt {
+	lv, ov, ts := canonSV(p.SignatureVerification)
+	return Stmt{Name: p.Name, Scopes: []string{}, IsGlobal: p.GlobalPolicy, Level: lv, Override: ov, Stores: strs(p.TrustStores),
+		Identities: strs(p.TrustedIdentities), verifyTimestamp: ts}
+}
+
+func sameStmt(a, b Stmt) bool { return reflect.DeepEqual(a, b) }
+
+// ---- mutate everything reachable from a handed-out statement ---------------------------------
+
+func scramble(v reflect.Value) {
+	switch v.Kind() {
+	case reflect.Ptr:
+		if !v.IsNil() {
+			scramble(v.Elem())
+		}
+	case reflect.Struct:
+		for i := 0; i < v.NumField(); i++ {
+			if v.Field(i).CanSet() {
+				scramble(v.Field(i))
+			}
+		}
+	case reflect.String:
+		v.SetString(mutated)
+	case reflect.Bool:
+		v.SetBool(!v.Bool())
+	case reflect.Slice:
+		// element-wise through the existing backing array, then through append
+		for i := 0; i < v.Len(); i++ {
+			scramble(v.Index(i))
+		}
+		extra := reflect.New(v.Type().Elem()).Elem()
+		scramble(extra)
+		v.Set(reflect.Append(v, extra))
+	case reflect.Map:
+		if v.IsNil() {
+			// a nil map cannot be written to; give the copy a map of its own
+			v.Set(reflect.MakeMap(v.Type()))
+		} else {
+			// change, delete and add keys of the map the copy points to
+			for _, k := range v.MapKeys() {
+				nv := reflect.New(v.Type().Elem()).Elem()
+				scramble(nv)
+				v.SetMapIndex(k, nv)
+				v.SetMapIndex(k, reflect.Value{})
+			}
+		}
+		k := reflect.New(v.Type().Key()).Elem()
+		scramble(k)
+		e := reflect.New(v.Type().Elem()).Elem()
+		if e.Kind() == reflect.String {
+			e.SetString("x")
+		}
+		v.SetMapIndex(k, e)
+	}
+}
+
+// ---- end-to-end: verifier with a recording in-memory trust store ---------------------------
+
+type memStore struct {
+	root *x509.Certificate
+	log  []string
+}
+
+func (m *memStore) GetCertificates(ctx context.Context, storeType truststore.Type, namedStore string) ([]*x509.Certificate, error) {
+	m.log = append(m.log, string(storeType)+":"+namedStore)
+	return []*x509.Certificate{m.root}, nil
+}
+
+type world struct {
+	chain   *common.Chain
+	target  ocispec.Descriptor
+	realSig []byte
+}
+
+var theWorld *world
+
+func getWorld() *world {
+	if theWorld == nil {
+		ch := common.MakeChain(common.ChainOpts{Tag: "c08"})
+		t := ocispec.Descriptor{MediaType: ocispec.MediaTypeImageManifest, Digest: digest.FromString("c08 artifact"), Size: 12}
+		theWorld = &world{chain: ch, target: t, realSig: common.MustSign(common.EnvOpts{Chain: ch, Target: &t})}
+	}
+	return theWorld
+}
+
+const leafIdentity = "x509.subject: C=US, ST=WA, O=Notary, CN=leaf c08"
+
+// effective level of a statement, as a comparable value
+func effLevel(sv trustpolicy.SignatureVerification) (trustpolicy.VerificationLevel, bool) {
+	l, err := sv.GetVerificationLevel()
+	if err != nil || l == nil {
+		return trustpolicy.VerificationLevel{}, false
+	}
+	return *l, true
+}
+
+// whoHasLevel names the unique statement of the pristine document whose effective level is lv.
+func whoHasLevel(stmts []Stmt, lv *trustpolicy.VerificationLevel) (Stmt, bool) {
+	if lv == nil {
+		return Stmt{}, false
+	}
+	var found []Stmt
+	for _, s := range stmts {
+		if e, ok := effLevel(sigVerification(s)); ok && reflect.DeepEqual(e, *lv) {
+			found = append(found, s)
+		}
+	}
+	if len(found) != 1 {
+		return Stmt{}, false
+	}
+	return found[0], true
+}
+
+func caStores(s Stmt) []string {
+	out := []string{}
+	for _, st := range s.Stores {
+		if strings.HasPrefix(st, "ca:") {
+			out = append(out, st)
+		}
+	}
+	return out
+}
+
+// classify turns what a verifier entry point returned into the observation vocabulary.
+// real: a genuine envelope was supplied, so on a non-skip statement the verification must
+// succeed against exactly the selected statement's trust stores.
+func classify(stmts []Stmt, outcome *notation.VerificationOutcome, err error, ts *memStore, real bool) string {
+	var npe notation.ErrorNoApplicableTrustPolicy
+	if err != nil && errors.As(err, &npe) {
+		if outcome != nil || len(ts.log) != 0 {
+			return other + ":no-policy-error-with-outcome-or-store-access"
+		}
+		return noPolicy
+	}
+	if outcome == nil {
+		return other + ":nil-outcome"
+	}
+	s, ok := whoHasLevel(stmts, outcome.VerificationLevel)
+	if !ok {
+		return other + ":unknown-level"
+	}
+	isSkip := reflect.DeepEqual(outcome.VerificationLevel, trustpolicy.LevelSkip)
+	if isSkip {
+		if err != nil || len(ts.log) != 0 {
+			return other + ":skip-with-error-or-store-access"
+		}
+		return "stmt:" + s.Name
+	}
+	if real {
+		if err != nil || outcome.Error != nil {
+			return other + ":real-signature-refused:" + fmt.Sprint(err)
+		}
+		if !reflect.DeepEqual(ts.log, caStores(s)) {
+			return other + ":stores-consulted=" + strings.Join(ts.log, ",")
+		}
+	} else if err == nil {
+		return other + ":garbage-signature-accepted"
+	}
+	return "stmt:" + s.Name
+}
+
+type e2e struct {
+	stmts []Stmt
+	v     interface {
+		notation.Verifier
+		notation.BlobVerifier
+		SkipVerify(ctx context.Context, opts notation.VerifierVerifyOptions) (bool, *trustpolicy.VerificationLevel, error)
+	}
+	ts *memStore
+}
+
+func newE2E(kind string, stmts []Stmt, raw []byte) *e2e {
+	ts := &memStore{root: getWorld().chain.Root().Cert}
+	opts := verifier.VerifierOptions{}
+	if kind == "oci" {
+		opts.OCITrustPolicy = parseOCI(raw)
+	} else {
+		opts.BlobTrustPolicy = parseBlob(raw)
+	}
+	v, err := verifier.NewVerifierWithOptions(ts, opts)
+	if err != nil {
+		panic(fmt.Sprintf("generator emitted a document the verifier refuses: %v\n%s", err, raw))
+	}
+	return &e2e{stmts: stmts, v: v, ts: ts}
+}
+
+var garbage = []byte(`{"not":"an envelope"}`)
+
+func (e *e2e) verifyOCI(ref string, real bool) string {
+	w := getWorld()
+	sig := garbage
+	if real {
+		sig = w.realSig
+	}
+	e.ts.log = nil
+	out, err := e.v.Verify(context.Background(), w.target, sig, notation.VerifierVerifyOptions{ArtifactReference: ref, SignatureMediaType: common.MediaJWS})
+	return classify(e.stmts, out, err, e.ts, real)
+}
+
+func (e *e2e) skipOCI(ref string) string {
+	e.ts.log = nil
+	skip, lv, err := e.v.SkipVerify(context.Background(), notation.VerifierVerifyOptions{ArtifactReference: ref, SignatureMediaType: common.MediaJWS})
+	var npe notation.ErrorNoApplicableTrustPolicy
+	if err != nil {
+		if errors.As(err, &npe) && !skip && lv == nil && len(e.ts.log) == 0 {
+			return noPolicy
+		}
+		return other + ":skipverify-error"
+	}
+	s, ok := whoHasLevel(e.stmts, lv)
+	if !ok {
+		return other + ":unknown-level"
+	}
+	if skip != reflect.DeepEqual(lv, trustpolicy.LevelSkip) {
+		return other + ":skip-flag"
+	}
+	return "stmt:" + s.Name
+}
+
+func (e *e2e) verifyBlob(name string, real bool) string {
+	w := getWorld()
+	sig := garbage
+	if real {
+		sig = w.realSig
+	}
+	e.ts.log = nil
+	gen := func(digest.Algorithm) (ocispec.Descriptor, error) { return w.target, nil }
+	out, err := e.v.VerifyBlob(context.Background(), gen, sig, notation.BlobVerifierVerifyOptions{SignatureMediaType: common.MediaJWS, TrustPolicyName: name})
+	return classify(e.stmts, out, err, e.ts, real)
+}
+
+// ---- one case ---------------------------------------------------------------------------------
+
+var wildcardOnly = parseOCI(docJSON("oci", []Stmt{{Name: "w", Scopes: []string{"*"}, Level: "strict",
+	Stores: []string{"ca:w"}, Identities: []string{"*"}}}))
+
+func containsStmt(l []Stmt, s Stmt) bool {
+	for _, x := range l {
+		if sameStmt(x, s) {
+			return true
+		}
+	}
+	return false
+}
+
+// runCase performs the experiment of Model/C08.lean `runWith`. real selects the queries that
+// are additionally run with a genuine signature envelope.
+func runCase(in Input, real func(q int) bool) Obs {
+	raw := docJSON(in.Kind, in.Stmts)
+	// the pristine view: the statements as a freshly parsed copy of the file presents them
+	var pristine []Stmt
+	if in.Kind == "oci" {
+		d := parseOCI(raw)
+		for i := range d.TrustPolicies {
+			pristine = append(pristine, canonOCI(&d.TrustPolicies[i]))
+		}
+	} else {
+		d := parseBlob(raw)
+		for i := range d.TrustPolicies {
+			pristine = append(pristine, canonBlob(&d.TrustPolicies[i]))
+		}
+	}
+	e := newE2E(in.Kind, in.Stmts, raw)
+	obs := Obs{Queries: []QObs{}}
+
+	// the document the direct selections (and the mutations) work on, for the whole case
+	var od *trustpolicy.OCIDocument
+	var bd *trustpolicy.BlobDocument
+	if in.Kind == "oci" {
+		od = parseOCI(raw)
+	} else {
+		bd = parseBlob(raw)
+	}
+	// sel performs one direct selection and returns (canonical contents, handle to mutate)
+	sel := func(kind string, q string) (Stmt, any, error) {
+		switch kind {
+		case "oci":
+			p, err := od.GetApplicableTrustPolicy(q)
+			if err != nil {
+				if p != nil {
+					panic("error with a non-nil statement")
+				}
+				return Stmt{}, nil, err
+			}
+			return canonOCI(p), p, nil
+		case "blob":
+			p, err := bd.GetApplicableTrustPolicy(q)
+			if err != nil {
+				return Stmt{}, nil, err
+			}
+			return canonBlob(p), p, nil
+		default:
+			p, err := bd.GetGlobalTrustPolicy()
+			if err != nil {
+				return Stmt{}, nil, err
+			}
+			return canonBlob(p), p, nil
+		}
+	}
+	experiment := func(kind, q string) QObs {
+		o := QObs{CopyEqual: true, Intact: true}
+		got, handle, err := sel(kind, q)
+		if err != nil {
+			return o
+		}
+		name := got.Name
+		o.Selected = &name
+		o.CopyEqual = containsStmt(pristine, got)
+		scramble(reflect.ValueOf(handle))
+		again, _, err := sel(kind, q)
+		o.Intact = err == nil && sameStmt(again, got)
+		return o
+	}
+
+	for qi, q := range in.Queries {
+		var o QObs
+		if in.Kind == "oci" {
+			o = experiment("oci", q)
+			_, err := wildcardOnly.GetApplicableTrustPolicy(q)
+			o.RefRejected = err != nil
+			o.ViaVerify = e.verifyOCI(q, false)
+			o.ViaSkip = e.skipOCI(q)
+			if real(qi) {
+				if r := e.verifyOCI(q, true); r != o.ViaVerify {
+					o.ViaVerify = other + ":garbage=" + o.ViaVerify + ",real=" + r
+				}
+			}
+		} else {
+			o = experiment("blob", q)
+			o.ViaVerify = e.verifyBlob(q, false)
+			if real(qi) {
+				if r := e.verifyBlob(q, true); r != o.ViaVerify {
+					o.ViaVerify = other + ":garbage=" + o.ViaVerify + ",real=" + r
+				}
+			}
+		}
+		obs.Queries = append(obs.Queries, o)
+	}
+	if in.Kind == "blob" {
+		g := experiment("global", "")
+		g.ViaVerify = e.verifyBlob("", false)
+		if real(len(in.Queries)) {
+			if r := e.verifyBlob("", true); r != g.ViaVerify {
+				g.ViaVerify = other + ":garbage=" + g.ViaVerify + ",real=" + r
+			}
+		}
+		obs.GlobalSel = &g
+	}
+	return obs
+}
+
+// ---- generators -------------------------------------------------------------------------------
+
+// near-miss scope alphabet: nested, sibling, shorter / longer by one character, port-qualified,
+// same path under a differently-cased domain, another registry
+var scopeAlphabet = []string{
+	"registry.example/app",
+	"registry.example/app/sub",
+	"registry.example/app2",
+	"registry.example/ap",
+	"registry.example:5000/app",
+	"REGISTRY.example/app",
+	"localhost:5000/a/b",
+}
+
+const hex64 = "0123456789abcdef0123456789abcdef0123456789abcdef0123456789abcdef"
+const dg = "@sha256:" + hex64
+
+// level configurations with pairwise different effective levels (the end-to-end observation
+// recognises the applied statement by its effective level)
+type levelCfg struct {
+	level    string
+	override *[][2]string
+	ts       string
+}
+
+func ov(kv ...string) *[][2]string {
+	l := [][2]string{}
+	for i := 0; i+1 < len(kv); i += 2 {
+		l = append(l, [2]string{kv[i], kv[i+1]})
+	}
+	sort.Slice(l, func(i, j int) bool { return l[i][0] < l[j][0] })
+	return &l
+}
+
+var levelCfgs = []levelCfg{
+	{"strict", nil, ""},
+	{"permissive", nil, "always"},
+	{"audit", nil, ""},
+	{"skip", nil, ""},
+	{"strict", ov("revocation", "skip"), "afterCertExpiry"},
+	{"strict", ov("expiry", "log", "authenticTimestamp", "log"), ""},
+	{"permissive", ov("revocation", "skip", "authenticity", "log"), ""},
+	{"audit", ov("revocation", "enforce"), ""},
+}
+
+func perms(n int) [][]int {
+	if n == 0 {
+		return [][]int{{}}
+	}
+	var out [][]int
+	for _, p := range perms(n - 1) {
+		for pos := 0; pos <= len(p); pos++ {
+			q := append(append(append([]int{}, p[:pos]...), n-1), p[pos:]...)
+			out = append(out, q)
+		}
+	}
+	return out
+}
+
+func shuffled(c *common.Ctx, l []string) []string {
+	out := append([]string{}, l...)
+	c.Rand.Shuffle(len(out), func(i, j int) { out[i], out[j] = out[j], out[i] })
+	return out
+}
+
+// fill gives a statement its level configuration, trust stores and identities.
+func fill(c *common.Ctx, s *Stmt, id int, cfg levelCfg) {
+	s.Level, s.Override, s.verifyTimestamp = cfg.level, cfg.override, cfg.ts
+	if cfg.level == "skip" {
+		s.Stores, s.Identities = []string{}, []string{}
+		return
+	}
+	s.Stores = []string{fmt.Sprintf("ca:store-s%d", id)}
+	switch c.Rand.Intn(3) {
+	case 1:
+		s.Stores = append(s.Stores, fmt.Sprintf("ca:extra-s%d", id))
+	case 2:
+		s.Stores = append([]string{fmt.Sprintf("signingAuthority:sa-s%d", id)}, s.Stores...)
+	}
+	if c.Rand.Intn(4) == 0 {
+		s.Identities = []string{"*"}
+	} else {
+		s.Identities = []string{leafIdentity, fmt.Sprintf("x509.subject: C=US, ST=WA, O=Notary, CN=only-s%d", id)}
+		if c.Rand.Intn(2) == 0 {
+			s.Identities[0], s.Identities[1] = s.Identities[1], s.Identities[0]
+		}
+	}
+}
+
+func pickCfgs(c *common.Ctx, n int, noSkipAt int) []levelCfg {
+	for {
+		idx := c.Rand.Perm(len(levelCfgs))[:n]
+		ok := true
+		for k, i := range idx {
+			if k == noSkipAt && levelCfgs[i].level == "skip" {
+				ok = false
+			}
+		}
+		if ok {
+			out := make([]levelCfg, n)
+			for k, i := range idx {
+				out[k] = levelCfgs[i]
+			}
+			return out
+		}
+	}
+}
+
+// genOCIDoc draws a valid document: k statements, an optional wildcard statement, every scope
+// of the alphabet given to at most one statement.
+func genOCIDoc(c *common.Ctx, k int, wild bool) []Stmt {
+	for {
+		stmts := make([]Stmt, k)
+		for i := range stmts {
+			stmts[i] = Stmt{Name: fmt.Sprintf("p%d", i), Scopes: []string{}}
+		}
+		w := -1
+		if wild {
+			w = c.Rand.Intn(k)
+			stmts[w].Scopes = []string{"*"}
+		}
+		if !(wild && k == 1) {
+			for _, sc := range shuffled(c, scopeAlphabet) {
+				if c.Rand.Intn(3) == 0 {
+					continue // not listed anywhere
+				}
+				j := c.Rand.Intn(k)
+				if j == w {
+					continue
+				}
+				stmts[j].Scopes = append(stmts[j].Scopes, sc)
+			}
+		}
+		ok := true
+		for _, s := range stmts {
+			if len(s.Scopes) == 0 {
+				ok = false
+			}
+		}
+		if !ok {
+			continue
+		}
+		cfgs := pickCfgs(c, k, -1)
+		for i := range stmts {
+			fill(c, &stmts[i], i, cfgs[i])
+		}
+		return stmts
+	}
+}
+
+func mutateText(c *common.Ctx, s string) string {
+	if len(s) == 0 {
+		return "x"
+	}
+	i := c.Rand.Intn(len(s))
+	switch c.Rand.Intn(5) {
+	case 0: // drop a character
+		return s[:i] + s[i+1:]
+	case 1: // double a character
+		return s[:i] + s[i:i+1] + s[i:]
+	case 2: // change the case of a character
+		ch := s[i : i+1]
+		if up := strings.ToUpper(ch); up != ch {
+			return s[:i] + up + s[i+1:]
+		}
+		return s[:i] + strings.ToLower(ch) + s[i+1:]
+	case 3: // insert a character
+		return s[:i] + string("a/.:-_@*"[c.Rand.Intn(8)]) + s[i:]
+	default: // truncate
+		return s[:i]
+	}
+}
+
+func ociQueries(c *common.Ctx, stmts []Stmt) []string {
+	var qs []string
+	for _, sc := range scopeAlphabet { // listed and unlisted paths, each a near miss of the others
+		qs = append(qs, sc+dg)
+	}
+	qs = append(qs,
+		"other.example/app"+dg,               // unlisted registry
+		"registry.example/other"+dg,          // unlisted repository
+		"registry.example/app/sub/x"+dg,      // extension of a listed path
+		"registry.example/a"+dg,              // prefix
+		"registry.example"+dg,                // registry only (malformed)
+		"registry.example/"+dg,               // empty repository
+		"registry.example/app/"+dg,           // trailing slash
+		"example/app"+dg,                     // suffix of the path
+		"Registry.Example/app"+dg,            // case variant of the domain (a different, valid path)
+		"registry.example/APP"+dg,            // case variant of the repository (malformed)
+		"registry.example/app:v1",            // tag only
+		"registry.example/app:v1"+dg,         // tag and digest
+		"registry.example:5000/app:v1"+dg,    // port, tag and digest
+		"registry.example/app",               // neither tag nor digest
+		"registry.example/app@",              // empty digest
+		"registry.example/app@sha256:abc"+dg, // two '@'
+		"registry.example/app@"+dg,           // path ends with '@'
+		"",                                   // empty
+		"@sha256:"+hex64,                     // missing repository
+		"*"+dg,                               // the wildcard as a path
+		"registry.example/*"+dg,              // a wildcard inside a path
+		" registry.example/app"+dg,           // leading blank
+		"registry.example/app "+dg,           // trailing blank
+		"https://registry.example/app"+dg,    // scheme
+	)
+	// random one-edit variants of listed scopes and of alphabet scopes
+	var listed []string
+	for _, s := range stmts {
+		for _, sc := range s.Scopes {
+			if sc != "*" {
+				listed = append(listed, sc)
+			}
+		}
+	}
+	for n := 0; n < 3; n++ {
+		base := scopeAlphabet[c.Rand.Intn(len(scopeAlphabet))]
+		if len(listed) > 0 && c.Rand.Intn(3) != 0 {
+			base = listed[c.Rand.Intn(len(listed))]
+		}
+		qs = append(qs, mutateText(c, base)+dg)
+	}
+	return qs
+}
+
+var blobNames = []string{"blob-policy", "blob-policy2", "Blob-policy", "blob", "blob-policy ", " ", "*"}
+
+func genBlobDoc(c *common.Ctx, k int, global bool) []Stmt {
+	names := shuffled(c, blobNames)[:k]
+	stmts := make([]Stmt, k)
+	g := -1
+	if global {
+		g = c.Rand.Intn(k)
+	}
+	cfgs := pickCfgs(c, k, g)
+	for i := range stmts {
+		stmts[i] = Stmt{Name: names[i], Scopes: []string{}, IsGlobal: i == g}
+		fill(c, &stmts[i], i, cfgs[i])
+	}
+	return stmts
+}
+
+func blobQueries(c *common.Ctx, stmts []Stmt) []string {
+	qs := append([]string{}, blobNames...)
+	qs = append(qs, "", "  ", "\t", "blob-polic", "blob-policy-x", "BLOB-POLICY", "blob-policy\n", "lob-policy")
+	for n := 0; n < 2; n++ {
+		qs = append(qs, mutateText(c, stmts[c.Rand.Intn(len(stmts))].Name))
+	}
+	return qs
+}
+
+func validate(kind string, stmts []Stmt) {
+	raw := docJSON(kind, stmts)
+	var err error
+	if kind == "oci" {
+		err = parseOCI(raw).Validate()
+	} else {
+		err = parseBlob(raw).Validate()
+	}
+	if err != nil {
+		panic(fmt.Sprintf("generator emitted an invalid %s document: %v\n%s", kind, err, raw))
+	}
+}
+
+// cases are generated sequentially (all randomness from c.Rand), executed by a pool of
+// workers (every case has its own documents, verifier and trust store) and emitted in
+// generation order.
+type job struct {
+	in        Input
+	pi        int
+	realEvery int
+}
+
+func (j job) real(q int) bool { return j.pi == 0 || (q+j.pi)%j.realEvery == 0 }
+
+var pending []job
+
+func flush(c *common.Ctx) {
+	results := make([]Obs, len(pending))
+	var wg sync.WaitGroup
+	next := int64(-1)
+	for w := 0; w < runtime.GOMAXPROCS(0); w++ {
+		wg.Add(1)
+		go func() {
+			defer wg.Done()
+			for {
+				k := int(atomic.AddInt64(&next, 1))
+				if k >= len(pending) {
+					return
+				}
+				results[k] = runCase(pending[k].in, pending[k].real)
+			}
+		}()
+	}
+	wg.Wait()
+	for k, j := range pending {
+		in, o, kind := j.in, results[k], j.in.Kind
+		c.Emit(in, o)
+		c.Count("kind=" + kind)
+		c.Count(fmt.Sprintf("%s.statements=%d", kind, len(in.Stmts)))
+		for q := range in.Queries {
+			if j.real(q) {
+				c.Count("verified-with-genuine-envelope")
+			}
+		}
+		for _, q := range o.Queries {
+			c.Count("query")
+			switch {
+			case q.Selected != nil:
+				c.Count(kind + ".outcome=selected")
+			case q.RefRejected:
+				c.Count(kind + ".outcome=reference-refused")
+			default:
+				c.Count(kind + ".outcome=no-applicable-statement")
+			}
+			if strings.HasPrefix(q.ViaVerify, other) {
+				c.Count("verify=other")
+			}
+		}
+	}
+	pending = pending[:0]
+}
+
+func emitAllPerms(c *common.Ctx, kind string, stmts []Stmt, queries []string, realEvery int) {
+	validate(kind, stmts)
+	for pi, p := range perms(len(stmts)) {
+		in := Input{Kind: kind, Stmts: make([]Stmt, len(stmts)), Queries: queries}
+		for i, j := range p {
+			in.Stmts[i] = stmts[j]
+		}
+		// a genuine envelope on the first permutation for every query, otherwise on a rotating sample
+		pending = append(pending, job{in: in, pi: pi, realEvery: realEvery})
+	}
+	if len(pending) >= 1024 {
+		flush(c)
+	}
+}
+
+// Run: documents x all permutations x query battery.
+func Run(c *common.Ctx) error {
+	nOCI, nBlob, realEvery := 400, 80, 7
+	getWorld() // before the workers start
+	pending = nil
+	if c.Thorough() {
+		nOCI, nBlob, realEvery = 6000, 1000, 5
+	}
+	// fixed documents that pin the near-miss shapes whatever the seed
+	fixed := [][]Stmt{
+		{{Name: "p0", Scopes: []string{"registry.example/app"}}, {Name: "p1", Scopes: []string{"registry.example/app/sub"}},
+			{Name: "p2", Scopes: []string{"registry.example/app2", "registry.example/ap"}}, {Name: "p3", Scopes: []string{"*"}}},
+		{{Name: "p0", Scopes: []string{"registry.example/app", "registry.example:5000/app"}}, {Name: "p1", Scopes: []string{"REGISTRY.example/app"}},
+			{Name: "p2", Scopes: []string{"localhost:5000/a/b"}}},
+		{{Name: "p0", Scopes: []string{"*"}}},
+		{{Name: "p0", Scopes: []string{"registry.example/app/sub"}}},
+		{{Name: "p0", Scopes: []string{"*"}}, {Name: "p1", Scopes: []string{"registry.example/app"}}},
+	}
+	for _, stmts := range fixed {
+		cfgs := pickCfgs(c, len(stmts), -1)
+		for i := range stmts {
+			fill(c, &stmts[i], i, cfgs[i])
+		}
+		emitAllPerms(c, "oci", stmts, ociQueries(c, stmts), realEvery)
+	}
+	for n := 0; n < nOCI; n++ {
+		k := 1 + n%4
+		stmts := genOCIDoc(c, k, c.Rand.Intn(2) == 0)
+		emitAllPerms(c, "oci", stmts, ociQueries(c, stmts), realEvery)
+	}
+	for n := 0; n < nBlob; n++ {
+		k := 1 + n%4
+		stmts := genBlobDoc(c, k, c.Rand.Intn(3) != 0)
+		emitAllPerms(c, "blob", stmts, blobQueries(c, stmts), realEvery)
+	}
+	flush(c)
+	c.Note("valid documents (real Validate() accepts each): %d fixed + %d random OCI documents of 1..4 statements over a %d-scope near-miss alphabet with/without a wildcard statement, %d random blob documents of 1..4 statements with/without a global one; every document in ALL permutations of its statements; per case %d+ OCI references (listed, unlisted, prefix/extension, case variants, tag, tag+digest, no digest, two '@', wildcard paths, blanks, random one-edit variants) or %d+ blob names; each query through the document selection, verifier.Verify/SkipVerify/VerifyBlob (garbage envelope always, genuine envelope on the first permutation and a rotating sample), then reflection-mutation of the handed-out copy and re-selection",
+		len(fixed), nOCI, len(scopeAlphabet), nBlob, 31+3, len(blobNames)+8+2)
+	return nil
+}
